@@ -141,6 +141,109 @@ def _merged_records(P, P2):
         yield t
 
 
+# ---------------------------------------------------------------------------------------------- C05
+def check_c05(pid, tier, t0, replay_key):
+    import e1, e3, e5
+    P = program()
+    tables = common.load_tables()
+    E = e1.E1(P)
+    M = e1.build_model(E)
+    findings, obl, samples, st3 = e3.run(P, tables)
+    f1, o1, s1, st1 = e5.rule_t1(P, E, M)
+    findings += f1
+    obl += o1
+    samples += s1
+    measured = {"functions_scanned": st3["functions_scanned"], "discard_sites": st3["discard_sites"],
+                "merge_list": len(st1["merge_list"]), "has_arms": st1["has_arms"], "bytes_for_arms": st1["bytes_for_arms"]}
+    common.check_floors(pid, measured, tables)
+    st = base_stats(P)
+    st.update(st3)
+    st.update(st1)
+    if tier == "thorough":
+        st["selftest"] = run_selftest(pid)
+    explanation = (
+        "Decides two structural necessary conditions of C05 from MIR of the current tree. (E3) No serialisation/compile error is dropped on the way "
+        "to the font: every Result<_, E> with a tracked error type (all workspace types implementing std::error::Error, write-fonts/read-fonts errors, "
+        "io::Error, ...) in every function reachable from fontc::run / generate_font / main is propagated, inspected or unwrapped; type-resolved "
+        "discard idioms (Result::ok/unwrap_or*/is_ok/is_err/map_or/iter on such a Result, a Result dropped unused, a match that never reads the Err "
+        "payload) are each audited in tables/e3_allow.json (function + idiom + error type + multiplicity + reason) or reported. (T1) The table-assembly "
+        "tables agree: arms of font::has == arms of font::bytes_for == TABLES_TO_MERGE, every arm touches exactly the slot of its own variant, the merge "
+        "list is within FontWork::read_access and contains the required tables, and every BE table slot some job writes is consumed. Together: if "
+        "compilation reports success, every table some job produced is in the font. NOT decided: directory/checksum/offset correctness (write-fonts' "
+        "FontBuilder), cross-table index ranges, glyph-count agreement, acyclicity/depth of the output component graph (values).")
+    rule_text = "one obligation per discard-site group (function, idiom, error type) and per T1 instance (arm, required table, slot); all enumerated, none sampled"
+    assumptions = ["external crates report failure through Result (their bodies are not analysed)",
+                   "audited discards are benign for the reasons recorded in tables/e3_allow.json (read and confirmed on the pinned tree)"]
+    return common.finish(pid, tier, t0, findings, obl, samples, explanation, rule_text, st, assumptions, TRUSTED,
+                         f"./check {pid} --tier {tier}", replay_key)
+
+
+# ---------------------------------------------------------------------------------------------- C14
+def check_c14(pid, tier, t0, replay_key):
+    import e1, e5
+    P = program()
+    tables = common.load_tables()
+    findings, obl, samples = [], [], []
+    st = base_stats(P)
+    for crate, adt in (("fontir", e1.FE_ID), ("fontbe", e1.BE_ID)):
+        f, o, s, s2 = e5.rule_p1_p2(P, crate, adt)
+        findings += f
+        obl += o
+        samples += s
+        st.update(s2)
+    f, o, s3 = e5.rule_p3(P, tables)
+    findings += f
+    obl += o
+    st.update(s3)
+    f, o, s4 = e5.rule_p4(P)
+    findings += f
+    obl += o
+    st.update(s4)
+    common.check_floors(pid, st, tables)
+    if tier == "thorough":
+        st["selftest"] = run_selftest(pid)
+    explanation = (
+        "Decides the structural clauses of C14 only: (P1) Paths::target_file of fontir and fontbe has one arm per WorkId variant and no wildcard; "
+        "literal file names are pairwise distinct ignoring case; every parametric arm (glyph, anchor, kerning instance, glyf/gvar fragment, kern "
+        "fragment) builds its name from its own literal namespace (directory / prefix / suffix set distinct from every other parametric arm); "
+        "(P2) no format placeholder with a precision inside the paths modules (a rounded coordinate in a file name merges distinct ids - the "
+        "{:.2} defect fixed in f12776d); (P3) serde skip attributes on fields of types reachable from Persistable impls equal the documented set; "
+        "(P4) Persistable::read / PersistentStorage::reader are called only on the restore path of ContextItem/ContextMap::get after try_get. "
+        "NOT decided: byte-identical font with and without --emit-ir, value equality after read-back, injectivity of string_to_filename for glyph "
+        "names that differ only by case or contain reserved characters, absence of collision between the literal prefix of kerning-instance files and "
+        "literal file names (value level).")
+    rule_text = "one obligation per match arm, literal file name, parametric namespace, format placeholder, skip attribute and restore-path call"
+    assumptions = ["file names are derived only inside the two paths modules (checked: PersistentStorage impls call Paths::target_file)"]
+    return common.finish(pid, tier, t0, findings, obl, samples, explanation, rule_text, st, assumptions, TRUSTED,
+                         f"./check {pid} --tier {tier}", replay_key)
+
+
+# ---------------------------------------------------------------------------------------------- C20
+def check_c20(pid, tier, t0, replay_key):
+    import e5
+    P = program()
+    tables = common.load_tables()
+    findings, obl, samples, s = e5.rule_q1(P)
+    st = base_stats(P)
+    st.update(s)
+    common.check_floors(pid, {"q1_obligations": len(obl)}, tables)
+    if tier == "thorough":
+        st["selftest"] = run_selftest(pid)
+    explanation = (
+        "Decides one clause of C20 (Q1, single pipeline): in the whole-program call graph, from each public entry point (fontc::run for the CLI, "
+        "fontc::generate_font for the library) there is a function through which every path to Workload::new, Workload::exec, FeContext::new_root "
+        "and BeContext::new_root passes, the two entry points share it, and those four are not called from anywhere outside it. Formulated as a "
+        "call-graph dominator, so renaming or splitting the function is not an alarm. NOT decided: container equivalence (.glyphs file vs "
+        ".glyphspackage vs in-memory text), UFO vs single-source designspace agreement, insensitivity to source formatting - those are parser "
+        "semantics over input values.")
+    rule_text = "one obligation per entry point, per shared-dominator test and per scheduler/context constructor (callers confined below the dominator)"
+    return common.finish(pid, tier, t0, findings, obl, samples, explanation, rule_text, st, [], TRUSTED,
+                         f"./check {pid} --tier {tier}", replay_key)
+
+
 CHECKS = {
     "C02": check_c02,
+    "C05": check_c05,
+    "C14": check_c14,
+    "C20": check_c20,
 }
